@@ -1,8 +1,8 @@
 """C13 — recording is faithful and never changes the execution."""
 from pyvc.driver import check_property
-from . import async_node, async_conn, async_misc, compiled, graph_api
+from . import async_node, async_conn, async_misc, async_record, compiled, graph_api
 
-UNITS = [u for u in async_node.UNITS + async_conn.UNITS + async_misc.UNITS + compiled.UNITS + graph_api.UNITS if "C13" in u.props]
+UNITS = [u for u in async_node.UNITS + async_conn.UNITS + async_misc.UNITS + async_record.UNITS + compiled.UNITS + graph_api.UNITS if "C13" in u.props]
 EXTRA = dict(bounded=[], explanation="Async: the record appended by push_step is pinned field by field to the StepState handed to the step and to its result; everything except the record list and "
              "the discard counter is pinned by clauses that do not mention the record settings or max_records. Compiled: _run_generation writes exactly row `seq` and only when the slot runs; "
              "relational unit: identical step states / buffers with and without aux['record'].")
